@@ -17,6 +17,14 @@ CLAIMED = {
             'bounded, solver-complete inside the bound: all histories of length <=2 (thorough: <=3 on the core alphabet) over matrix/dvector/uivector/ivector/tensor/list operations with operand lengths 0..4; CBMC memory model decides bounds, use-after-free and double free; counterexamples replayed under ASan/UBSan',
             'allocation never fails (library aborts in xmalloc); strvector not encoded; histories beyond the bound rest on the invariant asserted after every step; trusted: cbmc 6.11 memory model, typed memmove and insertion-sort qsort models',
             'DESIGN.md 5/C14'),
+    'C10': ('CBMC symbolic execution of the real MatrixPreprocess/TensorPreprocess -> SMT VC over the reals -> z3 (E-REAL); CBMC SAT bit-precise for MatrixCheck',
+            'bounded, solver-complete inside the bound: for every option -1..5, shape on the grid, concrete mask of missing cells and ALL real cell values the stored statistics, the transformed matrix, apply=fit and apply-to-new-rows equal their definitions',
+            'exact reals stand in for doubles; scaling statistic >= 0.02 or column constant (property quantifier); column sums inside (-1e-6,1e-6) excluded (documented tolerance of MatrixColAverage)',
+            'DESIGN.md 5/C10'),
+    'C15': ('CBMC->real-arithmetic VC->z3 for the metric formulas and for ROC/PR with truth vectors and score order types enumerated by the driver; CBMC SAT bit-precise (IEEE) for the perfect-prediction clause',
+            'bounded, solver-complete inside the bound: every missing-mask for n<=4, every binary truth vector x strict score order for n<=3 (n=4 partly in quick, n<=5 completely in thorough), all score values within the order; AUC = Mann-Whitney count identity',
+            'exact reals except in the IEEE obligations; no score ties; invariances of AUC are consequences of the Mann-Whitney identity; statistic tables not encoded',
+            'DESIGN.md 5/C15'),
 }
 NA = {
     'C16': 'behaviour lives inside SQLite and libc decimal formatting (FFI + file I/O); nothing of it is source in /repo that could be executed symbolically - an encoding would verify a hand-written SQL fake, not the code',
